@@ -34,6 +34,7 @@ type Request struct {
 	Stall       int   // extra scheduling points before each read
 	AbortAfter  int   // >=0: connection dies after this many body bytes were delivered
 	AbortEOF    bool  // the aborted connection ends with a clean EOF instead of a reset
+	Hang        bool  // instead of dying at AbortAfter the client just stops sending (for the rest of the run)
 	Splits      []int // explicit split offsets into the whole wire stream (overrides Frag)
 	RespFailAt  int   // >0: response Write fails once this many bytes were written
 	SlowReader  int   // extra scheduling points per response Write
@@ -79,6 +80,7 @@ type conn struct {
 	reads     int
 	short     int
 	dead      bool
+	hung      bool
 }
 
 var errConnReset = errors.New("read tcp: connection reset by peer")
@@ -99,6 +101,10 @@ func (c *conn) Read(p []byte) (int, error) {
 		}
 	}
 	if c.pos >= limit {
+		if c.dead && c.req.Hang && !c.hung {
+			c.hung = true
+			simrt.WaitExternal("a client that stopped sending")
+		}
 		if c.dead && !c.req.AbortEOF {
 			return 0, errConnReset
 		}
